@@ -72,7 +72,7 @@ theorem decLoop_spec {item : Bytes → Res (Val × Nat)}
 theorem decSeqBody_ok {item : Bytes → Res (Val × Nat)} {r : Rules} {o : Opts} {count w : Nat} {b : Bytes}
     {items : List (Val × Bytes)} {n : Nat} (h : decSeqBody item r o count w b = .ok (items, n)) :
     ∃ m, n = w + m ∧ decLoop item count (b.drop w) = .ok (items, m) ∧
-      (o.validation = true → r.boundsOk count = true ∧ validSeq r false (items.map (·.2)) = true) := by
+      (o.validation = true → r.boundsOk count = true ∧ validSeq r (items.map (·.2)) = true) := by
   unfold decSeqBody at h
   simp only [Res.bind_eq_ok, Res.require_eq_ok_iff, exists_and_left, exists_const, Res.pure_eq] at h
   obtain ⟨hb, ⟨items', m⟩, hloop, hv, hc⟩ := h
@@ -149,8 +149,8 @@ theorem cl_ty : ∀ (t : Ty), CL t
       omega
   | .byteArr len code mn mx => by
     intro b o v n h
-    simp only [dec, Res.bind_eq_ok] at h
-    obtain ⟨cw, hc, h⟩ := h
+    simp only [dec, Res.bind_eq_ok, Res.require_eq_ok_iff, exists_and_left, exists_const] at h
+    obtain ⟨_, cw, hc, h⟩ := h
     obtain ⟨hcw, _⟩ := readCode_ok hc
     split at h
     · contradiction
